@@ -105,7 +105,7 @@ func main() {
 		fmt.Println("usage: majcheck -prop <id> -tier quick|thorough; properties:", ids)
 		os.Exit(2)
 	}
-	w, err := loadWorld(*repo, "", overlay)
+	w, err := loadWorld(*repo, os.Getenv("MAJCHECK_GOARCH"), overlay)
 	if err != nil {
 		// a load failure fails the check: a static tool sees only what was parsed
 		r := &Run{W: &World{RepoDir: *repo}, Prop: *prop, Tier: *tier}
@@ -124,7 +124,7 @@ func main() {
 	}
 	extra := map[string]any{}
 	if *tier == "thorough" {
-		thorough(ps, r, *repo, extra)
+		thorough(ps, r, *repo, *verif, extra)
 	}
 	os.Exit(finish(r, ps, *verif, start, seed, extra))
 }
